@@ -181,7 +181,7 @@ def generate(reg, key, budget=None, parallel=None):
                     except Unsupported as ue:
                         # the clause is not even defined on the value produced (e.g. result[2] of a 2-tuple):
                         # it does not hold
-                        if "index out of range in spec" not in str(ue):
+                        if "index out of range in spec" not in str(ue) and "missing key in spec" not in str(ue):
                             raise
                         goal = F()
                         info = {"clause": c.ensures_src[k] + f"   [undefined on the produced result: {ue}]"}
